@@ -1353,6 +1353,9 @@ int32_t tls13ParseServerHello(ssl_t *ssl,
     uint16_t tmp_u16;
     uint16_t legacy_version;
     psBool_t isHrr;
+    /* Still set from parsing the previous ServerHello, if that was a
+       HelloRetryRequest. */
+    psBool_t afterHrr = ssl->tls13IncorrectDheKeyShare;
 
     psTracePrintHsMessageParse(ssl, SSL_HS_SERVER_HELLO);
 
@@ -1486,6 +1489,22 @@ int32_t tls13ParseServerHello(ssl_t *ssl,
        is the one the synthetic message_hash that replaces ClientHello1
        in the Transcript-Hash is computed with (RFC 8446, 4.4.1), so
        ssl->cipher must be known before tls13TranscriptHashReinit. */
+    if (isHrr && afterHrr)
+    {
+        /* 4.1.4: at most one HelloRetryRequest per connection. */
+        psTraceErrr("Error: second HelloRetryRequest\n");
+        ssl->err = SSL_ALERT_UNEXPECTED_MESSAGE;
+        return MATRIXSSL_ERROR;
+    }
+    if (afterHrr && (ssl->cipher == NULL || ssl->cipher->ident != cipher))
+    {
+        /* 4.1.4: the cipher suite in the ServerHello must be the one
+           that was in the HelloRetryRequest. */
+        psTraceIntInfo("ServerHello changed the HelloRetryRequest " \
+                "cipher: %d\n", cipher);
+        ssl->err = SSL_ALERT_ILLEGAL_PARAMETER;
+        return MATRIXSSL_ERROR;
+    }
     if ((ssl->cipher = sslGetCipherSpec(ssl, cipher)) == NULL)
     {
         ssl->err = SSL_ALERT_ILLEGAL_PARAMETER;
